@@ -322,7 +322,7 @@ def derive_pulls(diags):
         if d.get("level") != "error":
             continue
         msg = d.get("message", "")
-        m = re.search(r"no (?:method|function or associated item|associated function or constant|associated item) named `(\w+)` found for (?:struct|enum|type|union|reference|mutable reference) `&?(?:mut )?([^`]+)`", msg)
+        m = re.search(r"no (?:method|function or associated item|associated function or constant|variant, associated function, or constant|variant or associated item|associated item) named `(\w+)` found for (?:struct|enum|type|union|reference|mutable reference) `&?(?:mut )?([^`]+)`", msg)
         if m:
             ty = re.sub(r"<.*", "", m.group(2)).split("::")[-1].strip()
             out.append((ty, m.group(1)))
@@ -397,7 +397,8 @@ def _run_unit_once(unit, verify_args, tier, seed, prefixes, res, pulls, demote=N
                "len", "is_some", "is_none", "is_ok", "is_err", "unwrap", "unwrap_or", "expect", "ok_or", "is_empty", "push", "new", "from", "into",
                "clone", "take", "replace", "swap", "insert", "remove", "contains_key", "get", "try_from", "try_into", "as_ref", "as_mut", "ok", "err",
                "sleep", "sleep_until", "timeout", "now",      # modelled by the ghost clock (R21)
-               "first", "last", "abs_diff", "pow", "leading_zeros", "trailing_zeros", "to_be_bytes", "to_le_bytes", "from_be_bytes", "from_le_bytes", "drop", "default"}
+               "first", "last", "abs_diff", "pow", "leading_zeros", "trailing_zeros", "to_be_bytes", "to_le_bytes", "from_be_bytes", "from_le_bytes", "drop", "default",
+               "copied", "is_zero"}      # specified precisely in units/frag/std.tpl (std documentation)
     gen_text = open(rs).read()
     weak = {}
     for f in meta["functions"]:
